@@ -293,19 +293,19 @@ func Discharge(obls []*Obligation, counts map[*Obligation][]*countDef, cfg RunCo
 					if j.vacuity {
 						ms = 1500
 					}
-					r := Solve(sc, ms, cfg.All && last)
+					r := Solve(sc, ms, cfg.All)
 					total += r.Ms
 					if !last {
 						// a reduced hypothesis set can only prove, never refute
 						if r.Verdict == VUnsat {
-							j.o.Verdict, j.o.Solver, j.o.Ms = VUnsat, r.Solver, total
+							j.o.Verdict, j.o.Solver, j.o.Ms = VUnsat, solverLabel(r), total
 							j.o.Note = "proved from a reduced hypothesis set"
 							break
 						}
 						continue
 					}
 					j.o.Verdict = r.Verdict
-					j.o.Solver = r.Solver
+					j.o.Solver = solverLabel(r)
 					j.o.Ms = total
 					j.o.Model = r.Model
 					if r.Verdict == VUnknown {
@@ -323,4 +323,21 @@ func Discharge(obls []*Obligation, counts map[*Obligation][]*countDef, cfg RunCo
 	}
 	close(ch)
 	wg.Wait()
+}
+
+// solverLabel names the deciding solver(s); in the all-solvers mode every solver that answered is listed.
+func solverLabel(r SolveResult) string {
+	if len(r.All) <= 1 {
+		return r.Solver
+	}
+	var names []string
+	for _, n := range []string{"z3-new", "z3", "cvc5"} {
+		if v, ok := r.All[n]; ok && v == r.Verdict && v != VUnknown {
+			names = append(names, n)
+		}
+	}
+	if len(names) == 0 {
+		return r.Solver
+	}
+	return strings.Join(names, "+")
 }
